@@ -31,6 +31,7 @@ theorem unlock_mem_todoOf (v : Variant) (c : Cfg) (o : Op) (r : Ret) (del : List
   · simp
   · split
     · split <;> simp
+    · split <;> simp
     · simp
 
 theorem hold_upd {thr : Nat → PC} {t0 : Nat} {pc : PC} (hh : holding pc = holding (thr t0)) (t : Nat) :
@@ -228,6 +229,7 @@ theorem todoOf_shape (v : Variant) (c : Cfg) (o : Op) (r : Ret) (del : List Key)
   split
   · simp
   · split
+    · simp [hv]
     · simp [hv]
     · simp
 
